@@ -81,9 +81,9 @@ def handle : String → Handler
       let t ← parseNat? t; let k ← parseNat? k
       if t ≥ P.size ∨ k ≥ (s.getD t []).length then none else
       if !gibbsGuard P s t k then some "err" else
-      let w := gibbsWeights P s t k
+      let w := pedGibbsWeights P s t k
       if w.sum = 0 then some "nan" else
-      let ws := gibbsWeightsWith trioAlleleSpec trioPmf P s t k
+      let ws := pedGibbsWeightsWith trioAlleleSpec trioPmf P s t k
       some (showRats (gibbsProbabilities P s t k) ++ ";" ++
         (if ws.sum = 0 then "nan" else showRats (ws.map (· / ws.sum))))
     | _ => none
